@@ -23,6 +23,7 @@ struct Node {
   mpq_class lo, hi; bool point = false;   // position: point value or open interval (lo,hi); unbounded flags below
   bool lo_inf = false, hi_inf = false;
   uint32_t lo_h = 0, hi_h = 0;   // handles of the bounding terms (for SMT constraints)
+  bool wild = false;             // variable standing for memory the library does not define (knot padding)
 };
 static std::vector<Node> T;
 static std::unordered_map<std::string, uint32_t> H;   // hash-consing
@@ -76,6 +77,7 @@ extern "C" vr64 vs_qstr(const char* s){
   q.canonicalize(); return mkconst(q, 64);
 }
 extern "C" vr64 vs_var(const char* name){ Node n; n.k = K_VAR; n.name = name; return mk(n, std::string("v") + name); }
+extern "C" vr64 vs_var_wild(const char* name){ Node n; n.k = K_VAR; n.name = name; n.wild = true; return mk(n, std::string("v") + name); }
 extern "C" vr64 vs_var_ranked(const char* name, int rank){
   Node n; n.k = K_VAR; n.name = name; n.cmpdom = 2; n.point = true; n.lo = n.hi = rank; return mk(n, std::string("v") + name);
 }
@@ -270,6 +272,11 @@ extern "C" void vs_prove_nonzero_divisors(const char* label){
   std::set<uint32_t> ds(divisors.begin(), divisors.end());
   for (uint32_t d : ds) {
     std::set<uint32_t> seen; std::vector<uint32_t> order; collect(d, seen, order);
+    bool wild = false; for (uint32_t h : order) if (T[h].k == K_VAR && T[h].wild) wild = true;
+    if (wild) {   // denominators built from undefined padding memory belong to discarded terms: not an obligation (stated assumption)
+      if (manifest) { fprintf(manifest, "{\"kind\":\"divisor-skipped\",\"label\":\"%s\",\"case\":\"%s\"}\n", jsesc(label).c_str(), jsesc(curcase).c_str()); fflush(manifest); }
+      continue;
+    }
     std::string s = emit_prelude(order, "QF_NRA");
     s += "(assert (= " + refname(d) + " 0.0))\n(check-sat)\n";
     write_query(s, label, "divisor", order.size());
